@@ -127,6 +127,22 @@ def showDescr : TzDescr → String
 def showResult (r : Result) : String :=
   s!"{r.dt.wire} | {showDescr r.tz} | " ++ (match r.tokens with | none => "-" | some l => showToks l)
 
+/-- `n` | `z0` `z1` | `u` | `h<sp><neg>.<h>` | `m<sp><neg>.<h>.<m>` | `c<sp><neg>.<h>.<m>` -/
+def parseOff? (s : String) : Option PT.Off :=
+  match s.toList with
+  | ['n'] => some .naive
+  | ['z', '0'] => some (.z false)
+  | ['z', '1'] => some (.z true)
+  | ['u'] => some .utc
+  | k :: a :: b :: '.' :: rest =>
+    let sp := a = '1'; let neg := b = '1'
+    match (String.ofList rest).splitOn ".", k with
+    | [h], 'h' => h.toNat?.map (fun h => .hh sp neg h)
+    | [h, m], 'm' => do let h ← h.toNat?; let m ← m.toNat?; pure (.hhmm sp neg h m)
+    | [h, m], 'c' => do let h ← h.toNat?; let m ← m.toNat?; pure (.hhcmm sp neg h m)
+    | _, _ => none
+  | _ => none
+
 def optBool? (i : Int) : Option Bool := if i < 0 then none else some (i != 0)
 
 def handle (op : String) (args : List String) : Option String :=
@@ -176,6 +192,29 @@ def handle (op : String) (args : List String) : Option String :=
     some (match sep.toNat?, (parseIntList? dt).bind DT.ofList? with
       | some c, some t => "ok " ++ showCps (PT.renderIso (Char.ofNat c) t)
       | _, _ => "bad-args")
+  | "parser.rend", [kind, params, dt, off] =>
+    -- the Lean printers of the templates that have a `parse_render` theorem (compared with Python's each run)
+    some (match parseIntList? params, (parseIntList? dt).bind DT.ofList?, parseOff? off with
+      | some ps, some t, some o =>
+        let n (i : Nat) : Nat := (ps.getD i 0).toNat
+        (match kind with
+         | "isox" =>
+           let f : PT.TimeFmt := if n 1 = 0 then .hms else if n 1 = 1 then .frac false (n 2) else if n 1 = 2 then .frac true (n 2) else .hm
+           "ok " ++ showCps (PT.renderIsoX (Char.ofNat (n 0)) f t o)
+         | "compact" =>
+           let f : PT.CompactFmt := if n 0 = 0 then .tHMS else if n 0 = 1 then .nosepHMS else if n 0 = 2 then .tHM else .date
+           "ok " ++ showCps (PT.renderCompact f t)
+         | "mon" =>
+           let f : PT.MonFmt := if n 0 = 0 then .ctime (n 1) else if n 0 = 1 then .rfc2822 (n 1) else if n 0 = 2 then .longDate
+                                else if n 0 = 3 then .dMonY else .ddMonY
+           "ok " ++ showCps (PT.renderMon f t o)
+         | "ampm" => "ok " ++ showCps (PT.renderAmpm t)
+         | "hmsl" => "ok " ++ showCps (PT.renderHmsLetters t)
+         | _ => "bad-args")
+      | _, _, _ => "bad-args")
+  | "parser.asciicls", [] =>
+    some ("ok " ++ String.ofList ((List.range 128).map (fun i => match asciiCls (Char.ofNat i) with
+      | .alpha => 'a' | .decDigit v => Char.ofNat (48 + v) | .otherDigit => 'n' | .space => 's' | .other => 'x')))
   | "parser.dec", [cps, classes] =>
     -- the Decimal kernel: int(v), v % 1 truthiness, int(60 * (v % 1))
     some (match parseCps? cps with
